@@ -23,7 +23,7 @@ PROPS["C14"] = {
             "index-coded contents; a behaviour is non-trivial if it changes the shape or contains a refused reshape; distinct = distinct "
             "(start, operation sequence)",
     "mc": [{"module": "MC_C14",
-            "consts": {"quick": {"MaxDim": 3, "MaxCount": 8, "Depth": 2},
+            "consts": {"quick": {"MaxDim": 4, "MaxCount": 12, "Depth": 2},
                        "thorough": {"MaxDim": 4, "MaxCount": 16, "Depth": 2}},
             "workers": 8}],
     "record": [{"group": "reshape", "trace_module": "Trace_C14", "require": {"other_activity_as_meant": 12}}],
@@ -282,7 +282,7 @@ PROPS["C17"] = {
                   "with exact comparison, and the overwrite loop is compared bitwise with a real unrolled network holding the same weights",
     "level_note": "iterations <= 2 (3); sparse identity-like integer weights (vacuity guard: the accumulations must be distinguishable); multiply only for one iteration; mean over 3 tensors compared within 1e-5, everything else exactly",
     "rule": "one case = one (network, range, iterations, input skips) evaluated under 5 accumulations; all distinct; non-trivial = all",
-    "mc": [flow_mc("loop", ["{1, 2, 3, 4, 5, 6}", 1, 3, 1, "{1, 2}", "FALSE"], ["{1, 2, 3, 4, 5, 6}", 1, 4, 1, "{1, 2, 3}", "FALSE"]),
+    "mc": [flow_mc("loop", ["{1, 2, 3, 4, 5, 6, 7}", 1, 3, 1, "{1, 2}", "FALSE"], ["{1, 2, 3, 4, 5, 6, 7}", 1, 4, 1, "{1, 2, 3}", "FALSE"]),
            # two loop connections over disjoint ranges in one network, declared in either order
            flow_mc("loop", ["{1}", 2, 2, 1, "{1}", "FALSE"], ["{1, 2, 4, 5}", 2, 2, 1, "{1, 2}", "FALSE"])],
     "assumptions": FLOW_ASSUME,
@@ -415,8 +415,8 @@ PROPS["C10"] = {
                   "VALUE is not prescribed by the property and not compared",
     "rule": "one case = one (block, loops, accumulation, optimizer, batch) configuration; all distinct; non-trivial = all (every case trains)",
     "mc": [{"module": "MC_C10",
-            "consts": {"quick": {"MaxLoops": 3, "MaxSteps": 2, "Blocks": "{1, 2, 3, 4, 5, 6, 7, 8, 9, 10, 11}", "Optimizers": '{"sgd", "sgd-decay", "sgdm-decay", "adam", "rmsprop"}', "Batches": "{1, 2}"},
-                       "thorough": {"MaxLoops": 4, "MaxSteps": 3, "Blocks": "{1, 2, 3, 4, 5, 6, 7, 8, 9, 10, 11}", "Optimizers": '{"sgd", "sgd-decay", "sgdm", "sgdm-decay", "adam", "adam-decay", "adamw", "rmsprop", "rmsprop-decay"}', "Batches": "{1, 2, 3}"}},
+            "consts": {"quick": {"MaxLoops": 3, "MaxSteps": 2, "Blocks": "{1, 2, 3, 4, 5, 6, 7, 8, 9, 10, 11, 12}", "Optimizers": '{"sgd", "sgd-decay", "sgdm-decay", "adam", "rmsprop"}', "Batches": "{1, 2}"},
+                       "thorough": {"MaxLoops": 4, "MaxSteps": 3, "Blocks": "{1, 2, 3, 4, 5, 6, 7, 8, 9, 10, 11, 12}", "Optimizers": '{"sgd", "sgd-decay", "sgdm", "sgdm-decay", "adam", "adam-decay", "adamw", "rmsprop", "rmsprop-decay"}', "Batches": "{1, 2, 3}"}},
             "workers": 8, "timeout": {"quick": 600, "thorough": 3600}}],
     "assumptions": COMMON_ASSUMPTIONS,
 }
